@@ -1,6 +1,7 @@
 package checks
 
 import (
+	"encoding/json"
 	"fmt"
 	"os"
 	"sort"
@@ -28,6 +29,7 @@ func TestExploreAcceptance(t *testing.T) {
 	}
 	pionOnly := map[string]*cls{}
 	refOnly := map[string]*cls{}
+	valDiff := map[string]*cls{}
 	for _, k := range m.TypedKinds {
 		k := k
 		g := rapid.Custom(func(rt *rapid.T) []byte {
@@ -73,8 +75,26 @@ func TestExploreAcceptance(t *testing.T) {
 			if fr, err := m.SplitFrames(b); err != nil || len(fr) != 1 {
 				continue
 			}
-			_, rerr := m.DecodeFrameLenient(b, k, gen.PionDialect)
-			perr := conv.New(k).Unmarshal(exactCopy(b))
+			rv, rerr := m.DecodeFrameLenient(b, k, gen.PionDialect)
+			recv := conv.New(k)
+			perr := recv.Unmarshal(exactCopy(b))
+			if rerr == nil && perr == nil {
+				pv, cerr := conv.FromPion(recv)
+				if cerr == nil && !conv.Equal(rv, pv) {
+					if dd := gen.PionDialect; true {
+						dd.REMBZeroMantissa = true
+						if rv2, e2 := m.DecodeFrameLenient(b, k, dd); e2 == nil && conv.Equal(rv2, pv) {
+							continue // the listed REMB mantissa-0 finding
+						}
+					}
+					key := fmt.Sprintf("%s P=%v: values differ in %s", k, b[0]&0x20 != 0, diffFields(rv, pv))
+					if valDiff[key] == nil {
+						valDiff[key] = &cls{sample: hexs(b)}
+					}
+					valDiff[key].n++
+				}
+				continue
+			}
 			if (rerr == nil) == (perr == nil) {
 				continue
 			}
@@ -106,4 +126,25 @@ func TestExploreAcceptance(t *testing.T) {
 	}
 	dump("accepted by the library, rejected by the reference", pionOnly)
 	dump("accepted by the reference, rejected by the library", refOnly)
+	dump("accepted by both, decoded values differ (reference first)", valDiff)
+}
+
+// diffFields names the top-level fields of the packet's model in which two values differ.
+func diffFields(a, b m.Packet) string {
+	var ja, jb map[string]map[string]json.RawMessage
+	_ = json.Unmarshal([]byte(conv.JSON(a)), &ja)
+	_ = json.Unmarshal([]byte(conv.JSON(b)), &jb)
+	var out []string
+	for k, va := range ja {
+		if k == "Kind" {
+			continue
+		}
+		for f, x := range va {
+			if string(jb[k][f]) != string(x) {
+				out = append(out, f)
+			}
+		}
+	}
+	sort.Strings(out)
+	return fmt.Sprint(out)
 }
